@@ -1464,6 +1464,9 @@ var unaryGopNames = map[string]string{
 }
 
 func loadFuncBody(ctx *blockCtx, fn *gogen.Func, body *ast.BlockStmt, sigBase *types.Signature, src ast.Node) {
+	// the body may be loaded on demand while a statement that refers to fn is being compiled:
+	// keep that statement's pending comments (its line directive)
+	comments, once := ctx.cb.BackupComments()
 	cb := fn.BodyStart(ctx.pkg, body)
 	cb.SetComments(nil, false)
 	if sigBase != nil {
@@ -1486,6 +1489,7 @@ func loadFuncBody(ctx *blockCtx, fn *gogen.Func, body *ast.BlockStmt, sigBase *t
 		}
 	}
 	cb.End(src)
+	cb.SetComments(comments, once)
 }
 
 func loadImport(ctx *blockCtx, spec *ast.ImportSpec) {
